@@ -392,6 +392,10 @@ func (vi *VersionedIterator) advanceToNextKey() {
 		if err != nil {
 			continue
 		}
+		// the bounds are on the raw key: skip a user key that only matches the prefix through its version suffix
+		if !bytes.HasPrefix(userKey, vi.prefix) {
+			continue
+		}
 		// validate userKey and avoid duplicates
 		if userKey == nil || (vi.lastUserKey != nil &&
 			bytes.Equal(userKey, vi.lastUserKey)) {
